@@ -175,6 +175,9 @@ LoopAttr(l, a) ==
       [] a = "depth" -> VInt(l.depth0 + 1)
       [] a = "depth0" -> VInt(l.depth0)
 
+\* what a raising attribute / item fetch raises: the data's own exception (C38), or the error that ends a lazy stream
+RaiserErr(r) == IF "err" \in DOMAIN r THEN r.err ELSE "Raised:" \o r.id
+
 \* python-level attribute of a value (what getattr would find), names known to the model
 PyAttr(s, v, a) ==
     CASE v.t = "obj" -> IF MapHas(Objs[v.id].attrs, a) THEN [found |-> TRUE, v |-> Objs[v.id].attrs[a]]
@@ -185,7 +188,8 @@ PyAttr(s, v, a) ==
       \* it (and raise); those that look one item ahead raise when that item is the faulty step
       [] v.t = "loop" /\ "fk" \in DOMAIN v /\ (a \in {"length", "revindex", "revindex0"}
                                                \/ (a \in {"last", "nextitem"} /\ v.i + 2 = v.fk)) ->
-           [found |-> TRUE, v |-> [t |-> "raiser", exc |-> "Private", id |-> v.fid]]
+           [found |-> TRUE, v |-> IF "ferr" \in DOMAIN v THEN [t |-> "raiser", exc |-> "Private", id |-> "", err |-> v.ferr]
+                                  ELSE [t |-> "raiser", exc |-> "Private", id |-> v.fid]]
       [] v.t = "loop" -> IF a \in LoopAttrs THEN [found |-> TRUE, v |-> LoopAttr(v, a)]
                          ELSE IF a = "cycle" THEN [found |-> TRUE, v |-> [t |-> "loopcycle", l |-> v]]
                          ELSE IF a = "changed" THEN [found |-> TRUE, v |-> [t |-> "loopchanged", l |-> v]]
@@ -239,12 +243,12 @@ GetAttr(s, v, a) ==
              \* is tried); any other exception propagates unchanged
              pa == IF pa0.found /\ pa0.v.t = "raiser" /\ pa0.v.exc = "AttributeError"
                    THEN [found |-> FALSE, v |-> VNone] ELSE pa0 IN
-         IF pa.found /\ pa.v.t = "raiser" THEN Fail(s, "Raised:" \o pa.v.id)
+         IF pa.found /\ pa.v.t = "raiser" THEN Fail(s, RaiserErr(pa.v))
          ELSE IF pa.found THEN R(pa.v, s)
          ELSE LET pi0 == PyItem(s, v, StrKey(a))
                   pi == IF pi0.found /\ pi0.v.t = "raiser" /\ pi0.v.exc \in {"KeyError", "IndexError", "TypeError", "AttributeError"}
                         THEN [found |-> FALSE, v |-> VNone] ELSE pi0 IN
-              IF pi.found /\ pi.v.t = "raiser" THEN Fail(s, "Raised:" \o pi.v.id)
+              IF pi.found /\ pi.v.t = "raiser" THEN Fail(s, RaiserErr(pi.v))
               ELSE IF pi.found THEN R(pi.v, s)
               ELSE IF v.t \in {"dict", "list", "str"} THEN Fail(s, "EXCLUDED")   \* other builtin methods: not modelled
               ELSE IF ClosedAttrs(v) THEN R(UndefAttr(v, a), s)
@@ -261,13 +265,13 @@ GetItem(s, v, key) ==
              \* C38: LookupError / TypeError / AttributeError from the item fetch mean "no such item"
              pi == IF pi0.found /\ pi0.v.t = "raiser" /\ pi0.v.exc \in {"KeyError", "IndexError", "TypeError", "AttributeError"}
                    THEN [found |-> FALSE, v |-> VNone] ELSE pi0 IN
-         IF pi.found /\ pi.v.t = "raiser" THEN Fail(s, "Raised:" \o pi.v.id)
+         IF pi.found /\ pi.v.t = "raiser" THEN Fail(s, RaiserErr(pi.v))
          ELSE IF pi.found THEN R(pi.v, s)
          ELSE IF KeyName(key) # "?" THEN
               LET pa0 == PyAttr(s, v, KeyName(key))
                   pa == IF pa0.found /\ pa0.v.t = "raiser" /\ pa0.v.exc = "AttributeError"
                         THEN [found |-> FALSE, v |-> VNone] ELSE pa0 IN
-              IF pa.found /\ pa.v.t = "raiser" THEN Fail(s, "Raised:" \o pa.v.id)
+              IF pa.found /\ pa.v.t = "raiser" THEN Fail(s, RaiserErr(pa.v))
               ELSE IF pa.found THEN R(pa.v, s)
               ELSE IF v.t \in {"dict", "list", "str"} THEN
                        \* string key could name a builtin method (d['items']): not modelled
@@ -978,11 +982,13 @@ FilterItems(node, items, i, s, E, acc) ==
 RunLoop(node, itv, depth0, s, E, isRec, inner) ==
     \* C38: an iterable whose k-th step raises: the items before it are visited normally; unless the loop is
     \* left by break first, asking for step k ends the render with that exception
-    \* (a lazy stream that ends in an error raises it when the loop - or loop.last / loop.length looking ahead -
-    \*  asks for that item; only error-free streams are modelled as loop iterables)
-    IF itv.t = "lazy" /\ itv.err # "" THEN Fail(s, "EXCLUDED").S ELSE
-    LET faulty == itv.t = "iterfault"
-        it == IF faulty THEN [ok |-> TRUE, v |-> SubSeq(itv.v, 1, IF itv.k - 1 < Len(itv.v) THEN itv.k - 1 ELSE Len(itv.v)), err |-> ""]
+    \* a lazy stream that ends in an error behaves the same way: its items are visited, the error is raised when the
+    \* loop - or loop.last / loop.length looking ahead - asks for the item after them
+    LET lazyf == itv.t = "lazy" /\ itv.err # ""
+        faulty == itv.t = "iterfault" \/ lazyf
+        ferr == IF lazyf THEN itv.err ELSE IF itv.t = "iterfault" THEN "Raised:" \o itv.id ELSE ""
+        it == IF lazyf THEN [ok |-> TRUE, v |-> itv.v, err |-> ""]
+              ELSE IF faulty THEN [ok |-> TRUE, v |-> SubSeq(itv.v, 1, IF itv.k - 1 < Len(itv.v) THEN itv.k - 1 ELSE Len(itv.v)), err |-> ""]
               ELSE IterItems(itv) IN
     IF ~it.ok THEN Fail(s, it.err).S
     ELSE
@@ -996,14 +1002,15 @@ RunLoop(node, itv, depth0, s, E, isRec, inner) ==
                              rec |-> Fld(node, "recursive", FALSE), node |-> node, E |-> E, cell |-> cellId]
                      \* the faulty step comes when the item after the last visitable one is asked for (also through a
                      \* loop filter, which scans forward for the next passing item)
-                     lp == IF faulty THEN lp0 @@ [fk |-> Len(items) + 1, fid |-> itv.id] ELSE lp0
+                     lp == IF lazyf THEN lp0 @@ [fk |-> Len(items) + 1, fid |-> "", ferr |-> ferr]
+                           ELSE IF faulty THEN lp0 @@ [fk |-> Len(items) + 1, fid |-> itv.id] ELSE lp0
                      s0 == NewFrame([st EXCEPT !.flow = ""], ("loop" :> lp) @@ PreMap(node, "pre_body"))
                      E2 == [E EXCEPT !.sc = <<LastFrame(s0)>> \o E.sc, !.top = FALSE, !.loopd = E.loopd + 1]
                      s1 == AssignTarget(s0, E2, node.target, items[i])
                      s2 == ExSeq(node.body, s1, E2) IN
                  Iter(i + 1, s2)
         after == IF f.S.err # "" THEN f.S ELSE Iter(1, [f.S EXCEPT !.ns = Append(@, ("last" :> VMissing))])
-        done == IF faulty /\ after.err = "" /\ after.flow # "break" THEN Fail(after, "Raised:" \o itv.id).S
+        done == IF faulty /\ after.err = "" /\ after.flow # "break" THEN Fail(after, ferr).S
                 ELSE [after EXCEPT !.flow = ""]
     IN IF done.err # "" THEN done
        ELSE IF items = <<>> /\ Has(node, "else") /\ ~faulty THEN InScope(node["else"], done, E, PreMap(node, "pre_else"))
